@@ -384,3 +384,56 @@ pub fn overflow_boundary() -> Vec<Vec<u8>> {
     }
     out
 }
+
+/// number-like tokens whose separators stand at the edges of the 32-byte blocks of the number scanners: integer parts of
+/// 1, 2 and 30..34 / 62..66 digits (also with a leading `-`), fractions of 0, 1, 2, 30, 31 digits, and every small
+/// well-formed or malformed tail
+pub fn number_shapes() -> Vec<Vec<u8>> {
+    let tails: [&[u8]; 12] = [b"", b".5", b".5.5", b".5e1", b".5e", b"e1", b"e", b"e+", b"e1e1", b".5e1.5", b".", b"E-2"];
+    let mut out = Vec::new();
+    for neg in [false, true] {
+        for il in [1usize, 2, 30, 31, 32, 33, 34, 62, 63, 64, 65, 66] {
+            for fl in [0usize, 1, 2, 30, 31] {
+                for tail in tails.iter() {
+                    let mut t = Vec::new();
+                    if neg {
+                        t.push(b'-');
+                    }
+                    for k in 0..il {
+                        t.push(b'1' + (k % 9) as u8);
+                    }
+                    if fl > 0 {
+                        t.push(b'.');
+                        for k in 0..fl {
+                            t.push(b'0' + (k % 10) as u8);
+                        }
+                    }
+                    t.extend_from_slice(tail);
+                    out.push(t);
+                }
+            }
+        }
+    }
+    out
+}
+
+/// every string over `0 1 . e E + -` up to the given length that starts with `0`, `1` or `-`: the small number tokens,
+/// well-formed and not (`0.0e`, `0e+`, `-0.`, `1.e1`, ...)
+pub fn small_number_tokens(max_len: usize) -> Vec<Vec<u8>> {
+    let alpha = b"01.eE+-";
+    let mut out: Vec<Vec<u8>> = Vec::new();
+    let mut cur: Vec<Vec<u8>> = vec![b"0".to_vec(), b"1".to_vec(), b"-".to_vec()];
+    for _ in 1..=max_len {
+        out.extend(cur.iter().cloned());
+        let mut next = Vec::new();
+        for c in &cur {
+            for a in alpha {
+                let mut n = c.clone();
+                n.push(*a);
+                next.push(n);
+            }
+        }
+        cur = next;
+    }
+    out
+}
